@@ -39,7 +39,27 @@ def cases(rng, tier):
     for i in range(n):
         cfg = rng.choice(shardprop.CFGS)
         ntypes, nctx = rng.range(1, 2), rng.range(1, 3)
-        if i % 6 == 5:
+        if i % 12 == 4:
+            # a reader holds the lock of a passive buffer while the next rotation prunes the buffer set;
+            # the flush worker is parked so that the passive copy is the only readable copy
+            cap = cfg["fill_factor"] * cfg["event_per_zone"]
+            u = rng.below(ntypes)
+            ops = [("PARK", "fw_begin")]
+            ops += [("SN", u, rng.below(nctx)) for _ in range(cap)] + [("WAITP", "fw_begin")]
+            ops += [("PARK", "rd_passive_locked"), ("BGQ", u), ("WAITP", "rd_passive_locked")]
+            ops += [("SN", rng.below(ntypes), rng.below(nctx)) for _ in range(cap)]
+            ops += [("RELEASE", "rd_passive_locked"), ("JOIN",), ("OP", "fw_begin"), ("OP", "fw_begin")]
+            ops += [("RELEASE", "fw_begin"), ("SETTLE",), ("O",)]
+            out.append(shardprop.mk_case("reader-holds-passive", cfg, ntypes, nctx, ops))
+        elif i % 12 == 10:
+            # a flush that fails (a file blocks the segment directory): the passive copy stays the only
+            # readable copy and must keep being read; no model prediction for the failed flush (oracle only)
+            cap = cfg["fill_factor"] * cfg["event_per_zone"]
+            ops = [("BLOCKSEG", 0)]
+            ops += [("SN", rng.below(ntypes), rng.below(nctx)) for _ in range(cap)] + [("SETTLE",), ("O",)]
+            ops += [("SN", rng.below(ntypes), rng.below(nctx)) for _ in range(rng.range(1, cap))] + [("SETTLE",), ("O",), ("O",)]
+            out.append(shardprop.mk_case("flush-fails", cfg, ntypes, nctx, ops))
+        elif i % 6 == 5:
             # reads racing with background flushes: every STORE is followed at once by a QUERY; after the
             # engine settled, every acknowledged event must be readable (also before any restart)
             cap = cfg["fill_factor"] * cfg["event_per_zone"]
@@ -72,6 +92,8 @@ run_sides = shardprop.run_sides
 
 def diffs(c, impl, model):
     d = shardprop.diffs(c, impl, model)
+    if c.get("kind") == "flush-fails":
+        return []
     if c.get("kind") == "race":
         # the settled observation after racing reads (obs#0) may miss segment rows (known, schedule dependent
         # finding ReadDuringFlushPoisonsSegmentCache): what was READ is judged by the oracle only; the
